@@ -22,7 +22,8 @@ EXTRA = ["(progn (setq h (make-hash-table)) (puthash 'k 1 h) (puthash \"s\" 2 h)
          "(sort '(3 1 2) '<)", "(let ((tb (make-hash-table))) (dolist (k '(a b c d e f g)) (puthash k k tb)) (mapcar (lambda (k) (gethash k tb)) '(g f e d c b a)))",
          "(defmacro shared-mac (x) (list 'list x x))", "(shared-mac 4)",
          "(progn (setq tb (make-hash-table)) (list (prin1-to-string tb) (format \"%s|%S\" tb (list 1 tb))))", "(prin1-to-string (list (make-hash-table) (make-hash-table)))",
-         "(format \"%S\" (lambda (x) x))", "(prin1-to-string (list 'car (make-symbol \"u\") (gensym)))",
+         "(format \"%S\" (lambda (x) x))",
+         "(let ((h (make-hash-table)) (hits nil)) (dotimes (i 500) (puthash (concat \"key\" \"\") i h)) (dotimes (i 300) (if (gethash (concat \"key\" \"\") h) (setq hits (cons i hits)))) hits)", "(prin1-to-string (list 'car (make-symbol \"u\") (gensym)))",
          "(setq a \"line1\r\nline2\r\n\")", "(list \"x\r\ny\" (length \"\r\n\")\r\n (concat \"a\r\" \"\nb\"))", "(progn\r\n  (setq b \"cr\rlf\ncrlf\r\n\")\r\n  b) ; comment\r\n",
          "(format \"%s|%S\" \"p\r\nq\" \"p\r\nq\")", "(string= \"a\r\nb\" \"a\nb\")"]
 
